@@ -147,16 +147,16 @@ namespace raptor
                     switch (relax_type)
                     {
                         case Jacobi:
-                            jacobi(A, x, b, tmp, num_smooth_sweeps, relax_weight);
+                            jacobi(A, b, x, tmp, num_smooth_sweeps, relax_weight);
                             break;
                         case SOR:
-                            sor(A, x, b, tmp, num_smooth_sweeps, relax_weight);
+                            sor(A, b, x, tmp, num_smooth_sweeps, relax_weight);
                             break;
                         case SSOR:
-                            ssor(A, x, b, tmp, num_smooth_sweeps, relax_weight);
+                            ssor(A, b, x, tmp, num_smooth_sweeps, relax_weight);
                             break;
                         default : 
-                            sor(A, x, b, tmp, num_smooth_sweeps, relax_weight);
+                            sor(A, b, x, tmp, num_smooth_sweeps, relax_weight);
                             break;
                     }
 
@@ -176,16 +176,16 @@ namespace raptor
                     switch (relax_type)
                     {
                         case Jacobi:
-                            jacobi(A, x, b, tmp, num_smooth_sweeps, relax_weight);
+                            jacobi(A, b, x, tmp, num_smooth_sweeps, relax_weight);
                             break;
                         case SOR:
-                            sor(A, x, b, tmp, num_smooth_sweeps, relax_weight);
+                            sor(A, b, x, tmp, num_smooth_sweeps, relax_weight);
                             break;
                         case SSOR:
-                            ssor(A, x, b, tmp, num_smooth_sweeps, relax_weight);
+                            ssor(A, b, x, tmp, num_smooth_sweeps, relax_weight);
                             break;
                         default : 
-                            sor(A, x, b, tmp, num_smooth_sweeps, relax_weight);
+                            sor(A, b, x, tmp, num_smooth_sweeps, relax_weight);
                             break;
                     }
                 }
